@@ -195,3 +195,32 @@ REQUIRED_THEOREMS["C06"] += ["C06_book_uAddEdge", "C06_book_uSwap"]
 REQUIRED_THEOREMS["C01"] += ["C01_prim_updTid", "C01_prim_updTid_again", "C01_prim_updTid_law", "C01_prim_updTid_view",
                              "C01_prim_updTid_obs", "C01_updTid_rec_inverse", "C01_updTid_pre", "C01_group_wf",
                              "C01_note_updTid_needs_fresh", "C01_note_updTid_needs_lineage", "C01_note_updTid_needs_wf"]
+# ---- round 2 proof packages --------------------------------------------------------------------
+REQUIRED_THEOREMS["C03"] += ["C03_step_enable", "C03_delNbrOK", "C03_step_deleteNode", "C03_deleteNode_effect"]
+REQUIRED_THEOREMS["C04"] += ["C04_component_sound", "C04_component_complete", "C04_components_partition",
+                             "C04_reach_sameSeg", "C04_assign", "C04_assign_iff", "C04_assign_book",
+                             "C04_assign_forest", "C04_assign_order", "C04_step_enable",
+                             "C04_step_enable_recompute", "C04_step_enable_tid", "C04_step_enable_session",
+                             "C04_step_disable",
+                             "C04_valid_uDeleteNode", "C04_step_deleteNode", "C04_frame_deleteNode", "C04_deleteNode_tids",
+                             "C04_step_addNode", "C04_valid_uAddNode", "C04_valid_step_addNode", "C04_valid_trackNeighbors",
+                             "C04_frame_addNode", "C04_frame_addNode_unforced", "C04_frame_addNode_sharp"]
+REQUIRED_THEOREMS["C05"] += ["C05_reach_conn", "C05_assign", "C05_assign_iff", "C05_assign_book",
+                             "C05_assign_forest", "C05_assign_order", "C05_step_enable_lin",
+                             "C05_hyp_needed_enable_norecompute",
+                             "C05_step_deleteNode", "C05_frame_deleteNode", "C05_deleteNode_lins", "C05_deleteNode_root_keeps",
+                             "C05_step_addNode", "C05_frame_addNode", "C05_note_addNode_caller_lineage"]
+REQUIRED_THEOREMS["C06"] += ["C06_book_uDeleteNode", "C06_book_uAddNode", "C06_track_present_diverts"]
+REQUIRED_THEOREMS["C10"] += ["C10_enable_ids_current", "C10_enable_ids_graph_only",
+                             "C10_enable_current", "C10_enable_current_pixels", "C10_disabled_frozen_user_deleteEdge",
+                             "C10_disabled_frozen_user_addEdge", "C10_disabled_frozen_user_swap",
+                             "C10_disabled_frozen_user_updAttrs", "C10_disabled_frozen_user_deleteNode",
+                             "C10_disabled_frozen_user_addNode", "C10_disabled_frozen_user_updateSeg",
+                             "C10_disabled_frozen_user", "C10_disabled_frozen_recreate"]
+REQUIRED_THEOREMS["C01"] += ["C01_obsEq_equivalence", "C01_prim_updAttrs", "C01_prim_updSeg", "C01_prim_addNode",
+                             "C01_prim_delNode", "C01_group_obs", "C01_group_gen", "C01_obligation_obs",
+                             "C01_note_obsEq_needs_wf"]
+REQUIRED_THEOREMS["C07"] += ["C07_paint_combinatorial", "C07_step_paint", "C07_step_paint_ids", "C07_step_updSeg",
+                             "C07_undo_bits_addNode", "C07_note_undo_bits_addNode_needs_absent", "C07_step"]
+REQUIRED_THEOREMS["C08"] += ["C08_meas_step_paint", "C08_meas_paint_invariant", "C08_meas_step_paint_measOK"]
+ASSUMPTIONS["C12"] += ["mapped track_id / lineage_id: the validity check of the real code (geff.validate tracklets/lineages) is opaque; the model carries these columns like any other; the generators produce only valid, non-canonical ids and the oracle claims equality only when the ids are valid by the harness's own reading of the source links"]
